@@ -75,6 +75,14 @@ class C06(CacheProp):
                    ["del", h2, 21], ["tok"], ["wait"], ["get", h2, 20], ["get", h, 10]]
             cases.append(cachegen.Case("cd%d" % j, "cache", g.header(10 ** 6, 8, True, True, 0, 5), ops,
                                        tags=["profile:colldel"]))
+        # an item that fits EXACTLY (its accounted cost equals what is left, here the whole of an empty cache) is admitted
+        for j in range(2):
+            h = cachegen.mix(1700 + j)
+            ignore = j == 0
+            cost = 1000 if ignore else 1000 - pd["item_size"]
+            ops = [["set", h, 10, 11, cost, 0, "x"], ["wait"], ["get", h, 10], ["rem"], ["dump"], ["del", h, 10], ["wait"],
+                   ["set", h, 10, 12, cost, 0], ["tok"], ["wait"], ["get", h, 10]]
+            cases.append(cachegen.Case("xf%d" % j, "cache", g.header(1000, 8, ignore, True, 0, 5), ops, tags=["profile:colldel"]))
         return cases
 
     def _walk(self, case, il):
@@ -94,8 +102,8 @@ class C06(CacheProp):
                 if op[0] == "get" and waited and (op[1], op[2]) in want:
                     claims += 1
                     if res != [want[(op[1], op[2])], "true"]:
-                        fails.append("op %d: Get(%s,%s) returned %s although the key was Set (value %s), never deleted, and "
-                                     "only a different key with the same primary hash was deleted" % (
+                        fails.append("op %d: Get(%s,%s) returned %s although the key was Set (value %s, it fits), writes are drained and "
+                                     "the key itself was not deleted since (at most a different key with the same primary hash was)" % (
                                          s["n"], op[1], op[2], " ".join(res), want[(op[1], op[2])]))
             return fails, claims
         if not any(t.startswith("profile:roomy") for t in case.tags) and not any(t.startswith("corpus:") for t in case.tags):
